@@ -19,6 +19,7 @@ import time
 import trio
 import trio._core._io_epoll as trio_epoll
 import trio._core._run as trio_run_module
+import trio._core._thread_cache as trio_thread_cache
 import trio._threads as trio_threads
 from trio._core._entry_queue import TrioToken
 
@@ -41,6 +42,9 @@ REAL = {
     "_global_shutdown_lock": cf_thread._global_shutdown_lock,
     "excepthook": threading.excepthook,
     "run_sync_soon": TrioToken.run_sync_soon,
+    "thread_cache.Lock": trio_thread_cache.Lock,
+    "thread_cache.Thread": trio_thread_cache.Thread,
+    "thread_cache.THREAD_CACHE": trio_thread_cache.THREAD_CACHE,
 }
 
 
@@ -330,6 +334,11 @@ def install(scheduler: S.Scheduler):
     S.AThread._cosched_counter[0] = 0
     trio_threads._send_message_to_trio = _send_message_to_trio
     TrioToken.run_sync_soon = _run_sync_soon
+    # trio.to_thread worker threads: controlled, and a fresh cache per execution (the
+    # stock cache keeps idle OS threads alive across runs)
+    trio_thread_cache.Lock = S.ALock
+    trio_thread_cache.Thread = S.AThread
+    trio_thread_cache.THREAD_CACHE = trio_thread_cache.ThreadCache()
     threading.excepthook = lambda args: None
     asyncio.set_event_loop_policy(VPolicy())
     S.ACTIVE = scheduler
@@ -352,6 +361,9 @@ def uninstall():
     trio_run_module.Deadlines.add = REAL["Deadlines.add"]
     trio_threads._send_message_to_trio = REAL["_send_message_to_trio"]
     TrioToken.run_sync_soon = REAL["run_sync_soon"]
+    trio_thread_cache.Lock = REAL["thread_cache.Lock"]
+    trio_thread_cache.Thread = REAL["thread_cache.Thread"]
+    trio_thread_cache.THREAD_CACHE = REAL["thread_cache.THREAD_CACHE"]
     threading.excepthook = REAL["excepthook"]
     asyncio.set_event_loop_policy(None)
     gc.enable()
